@@ -37,8 +37,11 @@ const (
 	ExitHang = 3
 	// ExitMem is the exit code when the heap grew beyond the cap.
 	ExitMem = 4
-	// CaseCPUCapSeconds is the per-case CPU budget (process CPU time, not wall clock).
-	CaseCPUCapSeconds = 40
+	// CaseCPUCapSeconds is the CPU budget of one execution (user CPU time of the process, not wall clock). System time
+	// is left out: on an overcommitted machine the kernel's share of a process's time grows with the load (the second
+	// thorough sweep ran next to twenty compiling agents and four executions of the heaviest fixture, 0.2 s of work each,
+	// were charged more than 40 s), user time does not.
+	CaseCPUCapSeconds = 60
 	// HeapCapBytes is the heap cap.
 	HeapCapBytes = 6 << 30
 )
@@ -48,7 +51,7 @@ func cpuSeconds() float64 {
 	if err := syscall.Getrusage(syscall.RUSAGE_SELF, &ru); err != nil {
 		return 0
 	}
-	return float64(ru.Utime.Sec) + float64(ru.Utime.Usec)/1e6 + float64(ru.Stime.Sec) + float64(ru.Stime.Usec)/1e6
+	return float64(ru.Utime.Sec) + float64(ru.Utime.Usec)/1e6
 }
 
 var caseStartCPU atomic.Value // float64
